@@ -46,7 +46,7 @@ CLAIMS = {
         "note": _T + "corpus bound as C01",
     },
     "C09": {
-        "text": "Bounded: L09 proves fix(fix(x)) == fix(x) (text) on corpus explorations under seven configurations. K08b: the post-phase-1 clean-up applied twice equals applying it once, for every token list of <=7 (8) tokens. Configurations: 18 (default, jcl, indent_only, flipA-H, option sweeps flipI0-4, flipJ0-1).",
+        "text": "Bounded: L09 proves fix(fix(x)) == fix(x) (text) on corpus explorations under 18 configurations (default, jcl, indent_only, flipA-H, option sweeps flipI0-4 and flipJ0-1 derived from the rules own source). K08b: the post-phase-1 clean-up applied twice equals applying it once, for every token list of <=7 (8) tokens. Configurations: 18 (default, jcl, indent_only, flipA-H, option sweeps flipI0-4, flipJ0-1).",
         "design_ref": "DESIGN.md section 4 C09",
         "note": _T + "corpus bound as C01; two iterations",
     },
@@ -101,7 +101,7 @@ CLAIMS = {
         "note": _T + "get_token_pair_indexes only through the real rules",
     },
     "C19": {
-        "text": "Bounded: K19b pushes every sequence of <=3 (4) words of a structural vocabulary through the real vhdlFile constructor: accepted or ClassifyError, nothing else; L19 runs parse, full fix, check and report over pinned and random corpus explorations under seven configurations; every other harness charges escaping exceptions to C19 as well. K19c: for every regular expression compiled at module level in vsg and every unbounded repeat in it, z3 proves (path-counting semantics, |prefix|<=2, |w|<=3) that no string is consumed by the repeat in two ways while prefix+w+w still matches - i.e. no exponential backtracking; a model is replayed by timing the real re.fullmatch on the pumped string.",
+        "text": "Bounded: K19b pushes every sequence of <=3 (4) words of a structural vocabulary through the real vhdlFile constructor: accepted or ClassifyError, nothing else; L19 runs parse, full fix, check and report over pinned and random corpus explorations under 18 configurations (default, jcl, indent_only, flipA-H, option sweeps flipI0-4 and flipJ0-1 derived from the rules own source); every other harness charges escaping exceptions to C19 as well. K19c: for every regular expression compiled at module level in vsg and every unbounded repeat in it, z3 proves (path-counting semantics, |prefix|<=2, |w|<=3) that no string is consumed by the repeat in two ways while prefix+w+w still matches - i.e. no exponential backtracking; a model is replayed by timing the real re.fullmatch on the pumped string.",
         "design_ref": "DESIGN.md section 4 C19",
         "note": _T + "termination is guarded by per-path event/time budgets (unwinding assertion), not proved",
     },
